@@ -61,7 +61,14 @@ def run_segment(ld, n, cdir, ops, sleep=0.0, handles=None):
                 if k == 'open':
                     try:
                         keyed = len(op) > 3 and op[3]
-                        d = ld.new({f'k{i}': i for i in range(n)} if keyed else list(range(n))).map(fn).diskcache(cache_dir=cdir, reuse=op[1], clear=op[2])
+                        up = ld.new({f'k{i}': i for i in range(n)} if keyed else list(range(n))).map(fn)
+                        # the documented defaults are reuse=False, clear=True: spelled out or left out
+                        if (not op[1]) and op[2] and n % 2:
+                            d = up.diskcache(cache_dir=cdir)
+                        elif op[2] and n % 2:
+                            d = up.diskcache(cache_dir=cdir, reuse=op[1])
+                        else:
+                            d = up.diskcache(cache_dir=cdir, reuse=op[1], clear=op[2])
                     except RuntimeError:
                         outs.append(['refused'])
                         continue
